@@ -1030,7 +1030,8 @@ class C18(Prop):
                   "of program_file_id with its transcribed start, step, sizeof divisor and cast), line_roundtrip, long_statement_ok, init_block_roundtrip, "
                   "file_roundtrip for all include layouts (repeated and recursive includes, global include), "
                   "translate_eq_positions (decoder = oracle positions on every line of every table), trace_order, "
-                  "apply_frame_named, dump_trace_matches_svalue_trace; tied to the C code on every run: loop guards, "
+                  "apply_frame_named, dump_trace_matches_svalue_trace, call_stack_is_reversed_trace (efun call_stack), "
+                  "node_line_pending (i_generate_node); tied to the C code on every run: loop guards, "
                   "program_size test, second pass, widths and frame kinds are transcribed from the source, 22 source regions "
                   "are compared as text; the model encoder replays the compiler's hook events and must reproduce the real "
                   "tables byte for byte, the model decoder must agree with the real get_line_number on every code offset and "
